@@ -39,7 +39,7 @@ class Obj:
         return getattr(c, "name", None) or getattr(c, "short", None) or str(c)
 
     def __repr__(self):
-        inner = ", ".join(f"{k}={v!r}" for k, v in list(self.fields.items())[:8])
+        inner = ", ".join(f"{k}={v!r}" for k, v in [kv for kv in self.fields.items() if isinstance(kv[0], str)][:8])
         return f"{self.cls_name}({inner})"
 
 
